@@ -39,6 +39,12 @@ enum Op {
     Flush,
     Forget,
     DropJoin,
+    /// `drop(join_handle)` performed by an unwinding panic (caught with catch_unwind) on the dropping thread
+    DropJoinU,
+    /// the join handle is owned by a spawned thread that panics; the thread is joined
+    DropJoinT,
+    /// a queue handle dropped while its thread unwinds from a panic
+    DropU(usize),
     /// shut / open the flush gate: while shut every `stream.flush()` blocks
     Fclose,
     Fopen,
@@ -63,6 +69,9 @@ impl Op {
             Op::Flush => "flush".into(),
             Op::Forget => "forget".into(),
             Op::DropJoin => "dropjoin".into(),
+            Op::DropJoinU => "dropjoinU".into(),
+            Op::DropJoinT => "dropjoinT".into(),
+            Op::DropU(h) => format!("dropU:{h}"),
             Op::Fclose => "fclose".into(),
             Op::Fopen => "fopen".into(),
         }
@@ -78,6 +87,9 @@ impl Op {
             ["flush"] => Op::Flush,
             ["forget"] => Op::Forget,
             ["dropjoin"] => Op::DropJoin,
+            ["dropjoinU"] => Op::DropJoinU,
+            ["dropjoinT"] => Op::DropJoinT,
+            ["dropU", h] => Op::DropU(h.parse().ok()?),
             ["fclose"] => Op::Fclose,
             ["fopen"] => Op::Fopen,
             _ => return None,
@@ -93,6 +105,9 @@ impl Op {
             Op::Flush => "flush",
             Op::Forget => "forget",
             Op::DropJoin => "dropjoin",
+            Op::DropJoinU => "dropjoinU",
+            Op::DropJoinT => "dropjoinT",
+            Op::DropU(_) => "dropU",
             Op::Fclose => "fclose",
             Op::Fopen => "fopen",
         }
@@ -149,7 +164,7 @@ impl Case {
                     }
                     live.push(true);
                 }
-                Op::Drop(h) => {
+                Op::Drop(h) | Op::DropU(h) => {
                     if !live.get(*h).copied().unwrap_or(false) {
                         return false;
                     }
@@ -167,7 +182,7 @@ impl Case {
                     }
                     join_held = false;
                 }
-                Op::DropJoin => {
+                Op::DropJoin | Op::DropJoinU | Op::DropJoinT => {
                     if !join_held {
                         return false;
                     }
@@ -198,8 +213,8 @@ impl Case {
         for op in &self.ops[1..] {
             match op {
                 Op::Clone(_) => live.push(true),
-                Op::Drop(h) => live[*h] = false,
-                Op::Forget | Op::DropJoin => join_held = false,
+                Op::Drop(h) | Op::DropU(h) => live[*h] = false,
+                Op::Forget | Op::DropJoin | Op::DropJoinU | Op::DropJoinT => join_held = false,
                 Op::Fclose => fclosed = true,
                 Op::Fopen => fclosed = false,
                 _ => {}
@@ -259,7 +274,29 @@ fn profile(property: &str) -> Profile {
     }
 }
 
+/// A drop is a drop, also when it happens while the dropping thread unwinds from a panic: some of the
+/// generated `dropjoin` / `drop:h` ops become `dropjoinU` / `dropjoinT` / `dropU:h` (same model events).
+fn vary_drops(rng: &mut Rng, mut c: Case) -> Case {
+    for op in c.ops.iter_mut() {
+        match op {
+            Op::DropJoin => match rng.below(4) {
+                0 => *op = Op::DropJoinU,
+                1 => *op = Op::DropJoinT,
+                _ => {}
+            },
+            Op::Drop(h) if rng.chance(1, 4) => *op = Op::DropU(*h),
+            _ => {}
+        }
+    }
+    c
+}
+
 fn gen_case(rng: &mut Rng, p: &Profile) -> Case {
+    let c = gen_case_plain(rng, p);
+    vary_drops(rng, c)
+}
+
+fn gen_case_plain(rng: &mut Rng, p: &Profile) -> Case {
     if rng.below(100) < p.directed_pct {
         return gen_directed(rng);
     }
@@ -728,10 +765,15 @@ fn run_guided(case: &Case, kind: Kind, predicted: &[String], timeout: Duration) 
                 let c = r.handles[*h].as_ref().unwrap().clone();
                 r.handles.push(Some(c));
             }
-            Op::Drop(h) => {
-                r.handles[*h] = None;
+            Op::Drop(h) | Op::DropU(h) => {
+                let handle = r.handles[*h].take();
                 if !r.handles.iter().any(|h| h.is_some()) {
                     r.shutdown_begun = true;
+                }
+                if matches!(op, Op::DropU(_)) {
+                    drop_while_unwinding(handle);
+                } else {
+                    drop(handle);
                 }
             }
             Op::Gate(n) => r.built_gate.release(*n),
@@ -758,10 +800,15 @@ fn run_guided(case: &Case, kind: Kind, predicted: &[String], timeout: Duration) 
                     j.forget();
                 }
             }
-            Op::DropJoin => {
+            Op::DropJoin | Op::DropJoinU | Op::DropJoinT => {
                 r.shutdown_begun = true;
+                let how = match op {
+                    Op::DropJoinU => DropHow::Unwind,
+                    Op::DropJoinT => DropHow::PanickingThread,
+                    _ => DropHow::Plain,
+                };
                 if let Some(j) = r.join.take() {
-                    r.dropper = Some(JoinDropper::start(j, Duration::from_secs(30)));
+                    r.dropper = Some(JoinDropper::start_how(j, Duration::from_secs(30), how));
                 }
             }
         }
@@ -1489,6 +1536,272 @@ fn run_trace(tc: &TraceCase) -> TraceOutcome {
     out
 }
 
+
+// ------------------------------------------------------------------------------------------------
+// C09: where does the overflow count go? Every public way of attaching a recorder, overflows before and
+// after the process-global recorder is installed, inside and outside `with_local_recorder` scopes.
+// Oracle: every discard is counted by the recorder that is current WHEN it happens (for the routes that
+// use the current recorder), by the builder's own recorder (local route), by nobody (no recorder).
+// Must run before anything else installs a global metrics recorder in this process (nothing else does).
+
+fn wait_until(mut f: impl FnMut() -> bool, timeout: Duration) -> bool {
+    let t0 = Instant::now();
+    while !f() {
+        if t0.elapsed() > timeout {
+            return f();
+        }
+        std::thread::sleep(Duration::from_micros(200));
+    }
+    true
+}
+
+fn recorder_stage(args: &Args, rep: &mut Report, seed: u64) {
+    struct Q {
+        kind: Kind,
+        route: Route,
+        cap: usize,
+        handle: Option<Handle>,
+        join: Option<metrique_writer::sink::BackgroundQueueJoinHandle>,
+        gate: std::sync::Arc<GateShared>,
+        local: CountRecorder,
+        local_expected: u64,
+        appended: u64,
+        built_after_install: bool,
+    }
+    let mut rng = Rng::new(seed ^ 0xc09c09);
+    let global = CountRecorder::default();
+    let mut global_expected = 0u64;
+    let mut installed = false;
+    let mut scopes: Vec<(CountRecorder, u64)> = (0..3).map(|_| (CountRecorder::default(), 0u64)).collect();
+    let mut qs: Vec<Q> = vec![];
+    let mut steps: Vec<String> = vec![];
+    let mut failure: Option<String> = None;
+
+    let mut build_q = |qs: &mut Vec<Q>, steps: &mut Vec<String>, rng: &mut Rng, kind: Kind, route: Route, after: bool| -> bool {
+        let cap = rng.range(1, 3) as usize;
+        let local = CountRecorder::default();
+        let (handle, join, gate) = build_route(kind, cap, route, local.clone());
+        // prime: the writer takes one entry and is held inside `next`; then the ring is filled
+        handle.append(IdEntry { id: 0, res: Res::Ok });
+        let ok = wait_until(|| gate.lock().entered == 1, Duration::from_secs(20));
+        for i in 0..cap {
+            handle.append(IdEntry { id: 1 + i as u64, res: Res::Ok });
+        }
+        steps.push(format!("build q{} {} {} cap={}", qs.len(), kind.name(), route.name(), cap));
+        qs.push(Q { kind, route, cap, handle: Some(handle), join: Some(join), gate, local, local_expected: 0, appended: 1 + cap as u64, built_after_install: after });
+        ok
+    };
+
+    let routes = [Route::Global, Route::Local, Route::LocalThenNone, Route::NoneThenGlobal, Route::Global];
+    for (i, route) in routes.iter().enumerate() {
+        let kind = if (i + rng.below(2) as usize) % 2 == 0 { Kind::Typed } else { Kind::Boxed };
+        if !build_q(&mut qs, &mut steps, &mut rng, kind, *route, false) {
+            failure = Some("the writer did not take the first entry within 20 s".into());
+        }
+    }
+    let n1 = rng.range(8, 16);
+    let n2 = rng.range(10, 20);
+    let total_steps = n1 + n2;
+    for step in 0..total_steps {
+        if failure.is_some() {
+            break;
+        }
+        if step == n1 {
+            // the process-global recorder is installed now (after queues were built and have overflowed:
+            // the order the documentation recommends)
+            match metrics_024::set_global_recorder(global.clone()) {
+                Ok(()) => {
+                    installed = true;
+                    steps.push("install global recorder".into());
+                }
+                Err(_) => {
+                    rep.notes.push("recorder stage: a global metrics recorder was already installed in this process; the 'after install' half is skipped".into());
+                    break;
+                }
+            }
+            for route in [Route::Global, Route::NoneThenGlobal] {
+                let kind = if rng.chance(1, 2) { Kind::Typed } else { Kind::Boxed };
+                build_q(&mut qs, &mut steps, &mut rng, kind, route, true);
+            }
+        }
+        let qi = rng.below(qs.len() as u64) as usize;
+        let k = rng.range(1, 3);
+        let scope = if rng.chance(1, 2) { Some(rng.below(scopes.len() as u64) as usize) } else { None };
+        let q = &mut qs[qi];
+        let h = q.handle.as_ref().unwrap();
+        let base = q.appended;
+        let do_appends = || {
+            for j in 0..k {
+                h.append(IdEntry { id: base + j, res: Res::Ok });
+            }
+        };
+        match scope {
+            Some(si) => metrics_024::with_local_recorder(&scopes[si].0, do_appends),
+            None => do_appends(),
+        }
+        q.appended += k;
+        // who must have counted these k discards?
+        match q.route {
+            Route::Local => q.local_expected += k,
+            Route::LocalThenNone => {}
+            Route::Global | Route::NoneThenGlobal => match scope {
+                Some(si) => scopes[si].1 += k,
+                None => {
+                    if installed {
+                        global_expected += k
+                    }
+                }
+            },
+        }
+        steps.push(format!("q{qi} discards {k} {}", scope.map(|s| format!("inside with_local_recorder(L{s})")).unwrap_or_else(|| "outside any scope".into())));
+        // check every recorder after every step
+        let mut bad = vec![];
+        let g = global.0.overflows.load(Ordering::SeqCst);
+        if g != global_expected {
+            bad.push(format!("the global recorder has metrique_queue_overflows = {g}, expected {global_expected}"));
+        }
+        for (si, (r, e)) in scopes.iter().enumerate() {
+            let v = r.0.overflows.load(Ordering::SeqCst);
+            if v != *e {
+                bad.push(format!("scope recorder L{si} has {v}, expected {e}"));
+            }
+        }
+        for (i, q) in qs.iter().enumerate() {
+            let v = q.local.0.overflows.load(Ordering::SeqCst);
+            if v != q.local_expected {
+                bad.push(format!("the recorder given to q{i}'s builder has {v}, expected {}", q.local_expected));
+            }
+        }
+        if !bad.is_empty() {
+            failure = Some(format!("after step '{}': {}", steps.last().unwrap(), bad.join("; ")));
+        }
+    }
+    // model: the number of discards of each queue
+    let lines: Vec<String> = qs.iter().map(|q| format!("script 0 new:{} {}", q.cap, vec!["append:0:o"; q.appended as usize].join(" "))).collect();
+    if let Some(replies) = predict(args, &lines) {
+        for (q, r) in qs.iter().zip(replies.iter()) {
+            let model_ov = r.rsplit(';').next().and_then(|o| o.split(' ').find_map(|f| f.strip_prefix("ov="))).and_then(|v| v.parse::<u64>().ok());
+            let reference = q.appended - 1 - q.cap as u64;
+            if model_ov != Some(reference) {
+                rep.disagreement("queue/recorders-discards", &format!("script 0 new:{} append×{}", q.cap, q.appended), &reference.to_string(), &format!("{model_ov:?}"));
+            }
+        }
+    } else {
+        rep.driver_available = false;
+    }
+    let case = format!("recorders seed={seed} :: {}", steps.join(" | "));
+    let n_after = qs.iter().filter(|q| q.built_after_install).count();
+    rep.case(&case, installed && n_after > 0);
+    rep.bump("recorder stage: queues");
+    rep.bump_by("recorder stage: discard steps", total_steps);
+    for q in &qs {
+        rep.bump(&format!("recorder route:{}:{}", q.route.name(), q.kind.name()));
+    }
+    if let Some(what) = failure {
+        rep.oracle_failure("queue:c09-recorder-routing", &case, "-", &what);
+    }
+    // cleanup
+    for q in qs.iter_mut() {
+        q.gate.open();
+        q.handle = None;
+    }
+    for q in qs.iter_mut() {
+        if let Some(j) = q.join.take() {
+            let mut d = JoinDropper::start(j, Duration::from_secs(30));
+            d.finish(Duration::from_secs(30));
+        }
+    }
+}
+
+// ------------------------------------------------------------------------------------------------
+// C01: the in-band error report is written only while NO tracing subscriber is installed — decided at
+// every report. The check in the code runs on the writer thread, so the subscriber must be the
+// process-global default, which can be installed once and never removed: this stage runs LAST.
+
+fn subscriber_stage(args: &Args, rep: &mut Report) {
+    let reports = |g: &std::sync::Arc<GateShared>| g.lock().calls.iter().filter(|c| **c == Call::Report).count();
+    let nexts = |g: &std::sync::Arc<GateShared>| g.lock().calls.iter().filter(|c| matches!(c, Call::Next(..))).count();
+    let mut what: Option<String> = None;
+    // phase A: validation failures with no subscriber (a report may be written, at most one per second)
+    let a = build(Kind::Typed, 64, QUIET_INTERVAL, false);
+    let n_before = 3u64;
+    for i in 0..n_before {
+        a.handle.append(IdEntry { id: i, res: Res::Validation });
+    }
+    if !wait_until(|| nexts(&a.gate) == n_before as usize, Duration::from_secs(20)) {
+        what = Some("phase A: the entries did not reach the stream within 20 s".into());
+    }
+    let reports_before = reports(&a.gate);
+    // install the process-global subscriber
+    let errors = std::sync::Arc::new(std::sync::atomic::AtomicU64::new(0));
+    let installed = tracing::subscriber::set_global_default(ErrorEventCounter(errors.clone())).is_ok();
+    if !installed {
+        rep.notes.push("subscriber stage: a global tracing subscriber was already installed; stage skipped".into());
+        return;
+    }
+    // phase B: more validation failures, on the old queue and on new typed / boxed ones, until the
+    // subscriber has seen the writer's error event (the rate limiter lets one through per second)
+    let b1 = build(Kind::Boxed, 64, QUIET_INTERVAL, false);
+    let b2 = build(Kind::Typed, 64, SHORT_INTERVAL, false);
+    let queues = [&a, &b1, &b2];
+    let mut sent = [n_before, 0u64, 0u64];
+    let t0 = Instant::now();
+    let mut n_after = 0u64;
+    while what.is_none() {
+        for (qi, q) in queues.iter().enumerate() {
+            q.handle.append(IdEntry { id: sent[qi], res: Res::Validation });
+            sent[qi] += 1;
+            n_after += 1;
+            let want = sent[qi] as usize;
+            if !wait_until(|| nexts(&q.gate) == want, Duration::from_secs(20)) {
+                what = Some("phase B: an entry did not reach the stream within 20 s".into());
+            }
+        }
+        let after: usize = reports(&a.gate) - reports_before + reports(&b1.gate) + reports(&b2.gate);
+        if after > 0 {
+            what = Some(format!(
+                "{after} in-band error report(s) were written to the stream although a tracing subscriber is installed (the subscriber saw {} error events)",
+                errors.load(Ordering::SeqCst)
+            ));
+        }
+        // two error events = the limiter has opened at least twice since the subscriber exists
+        let seen = errors.load(Ordering::SeqCst);
+        if seen >= 2 || (seen >= 1 && t0.elapsed() > Duration::from_secs(4)) || t0.elapsed() > Duration::from_secs(30) {
+            break;
+        }
+        std::thread::sleep(Duration::from_millis(150));
+    }
+    if what.is_none() && errors.load(Ordering::SeqCst) == 0 {
+        what = Some(format!("a tracing subscriber is installed but saw no error event for {n_after} validation failures in {:.1} s", t0.elapsed().as_secs_f64()));
+    }
+    let reports_after: usize = reports(&a.gate) - reports_before + reports(&b1.gate) + reports(&b2.gate);
+    let case = format!("subscribed {n_before} {n_after}");
+    rep.case(&case, true);
+    rep.bump_by("subscriber stage: validation failures after the subscriber was installed", n_after);
+    rep.bump_by("subscriber stage: error events seen by the subscriber", errors.load(Ordering::SeqCst));
+    rep.bump_by("subscriber stage: reports written before the subscriber was installed", reports_before as u64);
+    if let Some(w) = what {
+        rep.oracle_failure("queue:c01-report-with-subscriber", &case, &format!("reports_before={reports_before} reports_after={reports_after}"), &w);
+    }
+    // the model: same numbers of failures before / after `setSubscriber true`, the limiter always open
+    match predict(args, &[case.clone()]) {
+        Some(r) => {
+            let get = |k: &str| r[0].split(' ').find_map(|f| f.strip_prefix(k)).and_then(|v| v.parse::<usize>().ok());
+            let (mb, ma) = (get("reports_before="), get("reports_after="));
+            // the real limiter admits at most what the always-open one admits; after the installation: equal
+            if ma != Some(reports_after) || mb.map(|m| reports_before > m).unwrap_or(true) {
+                rep.disagreement("queue/subscriber", &case, &format!("reports_before={reports_before} reports_after={reports_after}"), &r[0]);
+            }
+        }
+        None => rep.driver_available = false,
+    }
+    // cleanup (plain blocking drops: the streams accept everything)
+    for q in [a, b1, b2] {
+        drop(q.handle);
+        drop(q.join);
+    }
+}
+
 // ------------------------------------------------------------------------------------------------
 
 fn split_obs(reply: &str) -> Vec<String> {
@@ -1598,6 +1911,25 @@ fn main() {
     let mut rng = Rng::new(args.seed);
     let prop = args.property.clone();
     let p = profile(&prop);
+    let replay_line = args.replay_case();
+    let only_stage = replay_line.as_ref().map(|l| l.starts_with("recorders") || l.starts_with("subscribed")).unwrap_or(false);
+    // C09: the recorder-routing stage comes first (it installs the process-global metrics recorder)
+    if prop == "C09" && (replay_line.is_none() || replay_line.as_ref().unwrap().starts_with("recorders")) {
+        let seed = replay_line
+            .as_ref()
+            .and_then(|l| l.split("seed=").nth(1))
+            .and_then(|r| r.split(' ').next())
+            .and_then(|v| v.parse().ok())
+            .unwrap_or(args.seed);
+        recorder_stage(&args, &mut rep, seed);
+    }
+    if only_stage {
+        if replay_line.as_ref().unwrap().starts_with("subscribed") {
+            subscriber_stage(&args, &mut rep);
+        }
+        rep.write(&args);
+        return;
+    }
 
     let mut cases: Vec<Case> = vec![];
     let mut hww: Vec<String> = vec![];
@@ -1681,7 +2013,7 @@ fn main() {
         let n_app = gr.case.ops.iter().filter(|o| matches!(o, Op::Append(..))).count();
         let errs = gr.case.ops.iter().filter(|o| matches!(o, Op::Append(_, r) if *r != Res::Ok)).count();
         let clones = gr.case.ops.iter().filter(|o| matches!(o, Op::Clone(_))).count();
-        let has_join_mid = gr.case.ops.iter().position(|o| matches!(o, Op::DropJoin | Op::Forget)).map(|i| {
+        let has_join_mid = gr.case.ops.iter().position(|o| matches!(o, Op::DropJoin | Op::DropJoinU | Op::DropJoinT | Op::Forget)).map(|i| {
             // entries still queued when the join handle goes: `ent` below the number appended so far
             let appended = gr.case.ops[..i].iter().filter(|o| matches!(o, Op::Append(..))).count();
             let delivered = gr.pred.get(i.saturating_sub(1)).and_then(|o| o.split(' ').next()).map(|n| if n == "next=-" { 0 } else { n.matches(',').count() + 1 }).unwrap_or(0);
@@ -1724,12 +2056,15 @@ fn main() {
         if gr.case.tiny {
             rep.bump("mode:tiny shutdown_timeout");
         }
+        if gr.case.ops.iter().any(|o| matches!(o, Op::DropJoinU | Op::DropJoinT | Op::DropU(_))) {
+            rep.bump("hit:drop while unwinding");
+        }
         if gr.pred.iter().any(|o| o.ends_with("fblk=1")) {
             rep.bump("hit:writer held inside flush");
         }
         if gr.pred.iter().any(|o| o.ends_with("fblk=1") && !o.contains("done=- ")) || {
             // a flush request pending while the writer is inside shutdown
-            let j = gr.case.ops.iter().position(|o| matches!(o, Op::DropJoin));
+            let j = gr.case.ops.iter().position(|o| matches!(o, Op::DropJoin | Op::DropJoinU | Op::DropJoinT));
             let f = gr.case.ops.iter().position(|o| *o == Op::Flush);
             matches!((j, f), (Some(j), Some(f)) if f < j && gr.pred.get(j).map(|o| o.contains("done=- ")).unwrap_or(false))
         } {
@@ -1987,6 +2322,10 @@ fn main() {
             rep.search_found = true;
             rep.oracle_failure(&key, &case, &imp, &what);
         }
+    }
+    // C01: the subscriber stage comes last (it installs the process-global tracing subscriber)
+    if prop == "C01" && args.replay.is_none() {
+        subscriber_stage(&args, &mut rep);
     }
     rep.write(&args);
 }
